@@ -474,13 +474,17 @@ def main(tier='quick', seed=0, part=None):
         "target {none, tag}; per scenario every schedule with <= %d "
         "preemptions (points: lock acquire, sleeps, inside every driver "
         "method); distinct = (scenario, choice list); non-trivial = at least "
-        "one driver call made" % (
-            ' (and triple)' if tier == 'thorough' else '', sorted(EPS), bound))
+        "one driver call made; plus %d scenarios on the real acr122 / pn533 "
+        "/ rcs380 drivers over the simulated reader (1 preemption), where "
+        "every host-link transfer is checked" % (
+            ' (and triple)' if tier == 'thorough' else '', sorted(EPS), bound,
+            len([c for c in cfgs if c.get('driver')])))
     run.assumptions += [
         "the driver is a recording proxy; driver calls are made through the "
         "real ContactlessFrontend code paths, tag activation and card "
         "emulation use the real nfc.tag code on canned answers",
-        "participants: 2 (thorough also 3) application threads"]
+        "participants: 2 (thorough also 3) application threads; in the real "
+        "driver scenarios also any thread the driver itself starts"]
     return run.finish(coverage=dict(
         states=run.counters.get('choice_points', 0),
         transitions=run.counters.get('choice_points', 0),
